@@ -26,6 +26,7 @@ def gen_case(rng):
     else:
         adds.insert(rng.randint(0, len(adds)), {"name": 99, "interval": 1, "weight": rng.choice([1, 3, 64]), "min": 0})
     case = {"cycles": cycles, "adds": adds, "steps": rng.randint(6, 14), "seed": rng.randint(1, 2**31)}
+    case["wscale"] = random.Random(case["seed"]).choice([64, 64, 8, 1])
     if cycles >= 2 and rng.random() < 0.3:
         # the documented dynamic use: the consumer of the step generator changes a weight between two moves of the LAST step
         case["edit"] = {"after": rng.randint(0, cycles - 2), "name": rng.choice(adds)["name"], "weight": rng.choice([0, 0, 0, 1, 64])}
